@@ -9,7 +9,11 @@ relies on: every `run` receives `(tokens, first position, KV cache)`, and — wh
 KV-cache inputs — returns a *new* cache, identified by the number of the call that
 returned it, whose sequence length is the old length plus the number of tokens fed.
 The token produced by `next` is chosen by the environment (it stands for model logits +
-filter + sampler) and is carried by the operation itself.
+filter + sampler) and is carried by the operation itself; so are the environment's other
+choices: a failing `Model::run` (`processFail`, `nextFail`), a filter that removes every
+candidate (`nextEmpty`) and a logits output of the wrong rank (`nextBadLogits`).  A call also
+records the attention-mask length, the `use_cache_branch` flag and the encoder
+(cross-attention) cache handed in.
 
 Import-free: links into the `model_C32` driver.  `usize`/`u32` are `Nat`.
 -/
